@@ -145,52 +145,169 @@ theorem gsOne_orthogonal' (sqrtO : K → K) (done : List (DVec k K)) (c : DVec k
   intro q hq
   rw [ddot_gsOne, foldl_gsSub_orthogonal done c ho q hq, zero_mul]
 
-/-- with an exact square root and a non-vanishing remainder, the new column has unit norm -/
-theorem gsOne_unit (sqrtO : K → K) (hs : ∀ x, sqrtO x * sqrtO x = x) (done : List (DVec k K)) (c : DVec k K)
-    (hne : ddot (done.foldl gsSub c) (done.foldl gsSub c) ≠ 0) :
+/-- the scale factor `1/norm` is non-zero when the square root is exact at a non-zero squared norm -/
+theorem sqrtO_ne_zero (sqrtO : K → K) (x : K) (hne : x ≠ 0) (hx : sqrtO x * sqrtO x = x) : sqrtO x ≠ 0 := by
+  intro h0
+  rw [h0, mul_zero] at hx
+  exact hne hx.symm
+
+/-- with a square root exact at the (non-vanishing) squared norm of the remainder, the new column has unit norm -/
+theorem gsOne_unit (sqrtO : K → K) (done : List (DVec k K)) (c : DVec k K)
+    (hne : ddot (done.foldl gsSub c) (done.foldl gsSub c) ≠ 0)
+    (hx : sqrtO (ddot (done.foldl gsSub c) (done.foldl gsSub c)) * sqrtO (ddot (done.foldl gsSub c) (done.foldl gsSub c))
+      = ddot (done.foldl gsSub c) (done.foldl gsSub c)) :
     ddot (gsOne sqrtO done c) (gsOne sqrtO done c) = 1 := by
   set r := done.foldl gsSub c with hr
-  have hn : sqrtO (ddot r r) ≠ 0 := by
-    intro h0
-    have := hs (ddot r r)
-    rw [h0, mul_zero] at this
-    exact hne this.symm
+  have hn : sqrtO (ddot r r) ≠ 0 := sqrtO_ne_zero sqrtO _ hne hx
   have e : ddot (gsOne sqrtO done c) (gsOne sqrtO done c)
       = ddot r r * (1 / sqrtO (ddot r r)) * (1 / sqrtO (ddot r r)) := by
     rw [ddot_gsOne, ddot_comm, ddot_gsOne]
   rw [e]
-  have h2 := hs (ddot r r)
   field_simp
-  rw [pow_two, h2]
+  rw [pow_two, hx]
 
-/-- "no intermediate norm vanishes" along the run of `gramSchmidt sqrtO done rest` -/
-def GsNonDegenerate (sqrtO : K → K) : List (DVec k K) → List (DVec k K) → Prop
+/-- the subtraction sweep does not change the inner product with a vector orthogonal to every swept column -/
+theorem foldl_gsSub_ddot (done : List (DVec k K)) (c p : DVec k K) (hp : ∀ q ∈ done, ddot q p = 0) :
+    ddot (done.foldl gsSub c) p = ddot c p := by
+  induction done generalizing c with
+  | nil => rfl
+  | cons q t ih =>
+    rw [List.foldl_cons, ih _ fun q' hq' => hp q' (List.mem_cons_of_mem _ hq'), ddot_gsSub,
+      hp q (List.mem_cons_self ..), mul_zero, sub_zero]
+
+/-- along the run of `gramSchmidt sqrtO done rest` no remainder vanishes and `sqrtO` is exact at every squared norm
+    that occurs ("exact square root, no intermediate norm vanishes") -/
+def GsExact (sqrtO : K → K) : List (DVec k K) → List (DVec k K) → Prop
   | _, [] => True
   | done, c :: rest =>
-    ddot (done.foldl gsSub c) (done.foldl gsSub c) ≠ 0 ∧ GsNonDegenerate sqrtO (done ++ [gsOne sqrtO done c]) rest
+    (ddot (done.foldl gsSub c) (done.foldl gsSub c) ≠ 0 ∧
+      sqrtO (ddot (done.foldl gsSub c) (done.foldl gsSub c)) * sqrtO (ddot (done.foldl gsSub c) (done.foldl gsSub c))
+        = ddot (done.foldl gsSub c) (done.foldl gsSub c)) ∧
+    GsExact sqrtO (done ++ [gsOne sqrtO done c]) rest
 
-theorem gramSchmidt_orthonormal_aux (sqrtO : K → K) (hs : ∀ x, sqrtO x * sqrtO x = x) :
-    ∀ (rest done : List (DVec k K)), Orthonormal done → GsNonDegenerate sqrtO done rest →
-      Orthonormal (gramSchmidt sqrtO done rest) := by
+instance GsExact.dec [DecidableEq K] (sqrtO : K → K) :
+    ∀ (done rest : List (DVec k K)), Decidable (GsExact sqrtO done rest)
+  | _, [] => isTrue trivial
+  | done, c :: rest => by
+    unfold GsExact
+    exact @instDecidableAnd _ _ _ (GsExact.dec sqrtO (done ++ [gsOne sqrtO done c]) rest)
+
+theorem GsExact_append (sqrtO : K → K) : ∀ (r1 r2 done : List (DVec k K)),
+    GsExact sqrtO done (r1 ++ r2) → GsExact sqrtO done r1 := by
+  intro r1
+  induction r1 with
+  | nil => intro _ _ _; trivial
+  | cons c r1 ih =>
+    intro r2 done h
+    exact ⟨h.1, ih r2 _ h.2⟩
+
+/-- `done` is orthonormal and spans `ins` (dual form: whatever is orthogonal to `done` is orthogonal to `ins`) -/
+def GsInv (done ins : List (DVec k K)) : Prop :=
+  Orthonormal done ∧ done.length = ins.length ∧
+    ∀ p, (∀ q ∈ done, ddot q p = 0) → ∀ c ∈ ins, ddot c p = 0
+
+theorem GsInv_step (sqrtO : K → K) (done ins : List (DVec k K)) (c : DVec k K) (hI : GsInv done ins)
+    (hne : ddot (done.foldl gsSub c) (done.foldl gsSub c) ≠ 0)
+    (hx : sqrtO (ddot (done.foldl gsSub c) (done.foldl gsSub c)) * sqrtO (ddot (done.foldl gsSub c) (done.foldl gsSub c))
+      = ddot (done.foldl gsSub c) (done.foldl gsSub c)) :
+    GsInv (done ++ [gsOne sqrtO done c]) (ins ++ [c]) := by
+  obtain ⟨ho, hlen, hspan⟩ := hI
+  refine ⟨⟨List.pairwise_append.2 ⟨ho.1, List.pairwise_singleton _ _, ?_⟩, ?_⟩, ?_, ?_⟩
+  · intro p hp q hq
+    have : q = gsOne sqrtO done c := by simpa using hq
+    subst this
+    rw [ddot_comm]
+    exact gsOne_orthogonal' sqrtO done c ho p hp
+  · intro q hq
+    rcases List.mem_append.1 hq with hq | hq
+    · exact ho.2 q hq
+    · have : q = gsOne sqrtO done c := by simpa using hq
+      subst this
+      exact gsOne_unit sqrtO done c hne hx
+  · simp [hlen]
+  · intro p hp c' hc'
+    have hpd : ∀ q ∈ done, ddot q p = 0 := fun q hq => hp q (List.mem_append_left _ hq)
+    rcases List.mem_append.1 hc' with hc' | hc'
+    · exact hspan p hpd c' hc'
+    · have : c' = c := by simpa using hc'
+      subst this
+      have hg := hp (gsOne sqrtO done c') (by simp)
+      rw [ddot_gsOne, foldl_gsSub_ddot done c' p hpd] at hg
+      have hn := sqrtO_ne_zero sqrtO _ hne hx
+      rcases mul_eq_zero.1 hg with h | h
+      · exact h
+      · exact absurd h (one_div_ne_zero hn)
+
+theorem gramSchmidt_inv (sqrtO : K → K) : ∀ (rest done ins : List (DVec k K)),
+    GsInv done ins → GsExact sqrtO done rest → GsInv (gramSchmidt sqrtO done rest) (ins ++ rest) := by
   intro rest
   induction rest with
-  | nil => intro done ho _; exact ho
+  | nil => intro done ins hI _; simpa [gramSchmidt] using hI
   | cons c rest ih =>
-    intro done ho hnd
+    intro done ins hI hE
     rw [gramSchmidt]
-    refine ih _ ?_ hnd.2
-    refine ⟨List.pairwise_append.2 ⟨ho.1, List.pairwise_singleton _ _, ?_⟩, ?_⟩
-    · intro p hp q hq
-      have : q = gsOne sqrtO done c := by simpa using hq
-      subst this
-      rw [ddot_comm]
-      exact gsOne_orthogonal' sqrtO done c ho p hp
-    · intro q hq
-      rcases List.mem_append.1 hq with hq | hq
-      · exact ho.2 q hq
-      · have : q = gsOne sqrtO done c := by simpa using hq
-        subst this
-        exact gsOne_unit sqrtO hs done c hnd.1
+    have := ih _ _ (GsInv_step sqrtO done ins c hI hE.1.1 hE.1.2) hE.2
+    simpa using this
+
+theorem gramSchmidt_append (sqrtO : K → K) : ∀ (r1 r2 done : List (DVec k K)),
+    gramSchmidt sqrtO done (r1 ++ r2) = gramSchmidt sqrtO (gramSchmidt sqrtO done r1) r2 := by
+  intro r1
+  induction r1 with
+  | nil => intro r2 done; rfl
+  | cons c r1 ih => intro r2 done; simp only [List.cons_append, gramSchmidt, ih]
+
+theorem gramSchmidt_prefix (sqrtO : K → K) : ∀ (rest done : List (DVec k K)),
+    ∃ X, gramSchmidt sqrtO done rest = done ++ X ∧ X.length = rest.length := by
+  intro rest
+  induction rest with
+  | nil => intro done; exact ⟨[], by simp [gramSchmidt], rfl⟩
+  | cons c rest ih =>
+    intro done
+    obtain ⟨X, hX, hl⟩ := ih (done ++ [gsOne sqrtO done c])
+    refine ⟨gsOne sqrtO done c :: X, ?_, by simp [hl]⟩
+    rw [gramSchmidt, hX, List.append_assoc]
+    rfl
+
+theorem gramSchmidt_length (sqrtO : K → K) (cols : List (DVec k K)) :
+    (gramSchmidt sqrtO [] cols).length = cols.length := by
+  obtain ⟨X, hX, hl⟩ := gramSchmidt_prefix sqrtO cols []
+  rw [hX, List.nil_append, hl]
+
+theorem gramSchmidt_take (sqrtO : K → K) (cols : List (DVec k K)) (m : Nat) :
+    (gramSchmidt sqrtO [] cols).take m = gramSchmidt sqrtO [] (cols.take m) := by
+  by_cases hm : m ≤ cols.length
+  · conv_lhs => rw [← List.take_append_drop m cols, gramSchmidt_append]
+    obtain ⟨X, hX, _⟩ := gramSchmidt_prefix sqrtO (cols.drop m) (gramSchmidt sqrtO [] (cols.take m))
+    rw [hX]
+    have hl : (gramSchmidt sqrtO [] (cols.take m)).length = m := by
+      rw [gramSchmidt_length, List.length_take]
+      omega
+    rw [List.take_append_of_le_length (by omega), List.take_of_length_le (by omega)]
+  · have h1 : cols.take m = cols := List.take_of_length_le (by omega)
+    rw [h1, List.take_of_length_le]
+    rw [gramSchmidt_length]
+    omega
+
+/-- **modified Gram–Schmidt as written**: with a square root exact on the norms that occur and no vanishing remainder,
+    the output is orthonormal, has one column per input column, and for every `m` its first `m` columns span the
+    first `m` input columns (dual form) -/
+theorem gramSchmidt_spec (sqrtO : K → K) (cols : List (DVec k K)) (hE : GsExact sqrtO [] cols) :
+    Orthonormal (gramSchmidt sqrtO [] cols) ∧ (gramSchmidt sqrtO [] cols).length = cols.length ∧
+    ∀ m p, (∀ q ∈ (gramSchmidt sqrtO [] cols).take m, ddot q p = 0) → ∀ c ∈ cols.take m, ddot c p = 0 := by
+  have h0 : GsInv ([] : List (DVec k K)) [] :=
+    ⟨⟨List.Pairwise.nil, fun _ h => absurd h (List.not_mem_nil)⟩, rfl, fun _ _ _ h => absurd h (List.not_mem_nil)⟩
+  refine ⟨?_, gramSchmidt_length sqrtO cols, ?_⟩
+  · have := gramSchmidt_inv sqrtO cols [] [] h0 hE
+    exact this.1
+  · intro m p hp c hc
+    rw [gramSchmidt_take] at hp
+    have hE' : GsExact sqrtO [] (cols.take m) := by
+      have := hE
+      rw [← List.take_append_drop m cols] at this
+      exact GsExact_append sqrtO _ _ _ this
+    have := gramSchmidt_inv sqrtO (cols.take m) [] [] h0 hE'
+    rw [List.nil_append] at this
+    exact this.2.2 p hp c hc
 
 end GS
 
